@@ -12,8 +12,8 @@ import (
 	"time"
 
 	"github.com/conduitio/conduit-commons/config"
-	sdk "github.com/conduitio/conduit-processor-sdk"
 	"github.com/conduitio/conduit-commons/database/inmemory"
+	sdk "github.com/conduitio/conduit-processor-sdk"
 	"github.com/conduitio/conduit/pkg/foundation/log"
 	"github.com/conduitio/conduit/pkg/plugin/processor/egress"
 	"github.com/conduitio/conduit/pkg/verifkit"
@@ -36,10 +36,12 @@ func (r *capturingRegistry) NewProcessor(_ context.Context, _ string, _ string, 
 
 type bindProc struct{ sdk.UnimplementedProcessor }
 
-func (bindProc) Specification() (sdk.Specification, error)          { return sdk.Specification{Name: "verif"}, nil }
-func (bindProc) Configure(context.Context, config.Config) error     { return nil }
-func (bindProc) Open(context.Context) error                         { return nil }
-func (bindProc) Teardown(context.Context) error                     { return nil }
+func (bindProc) Specification() (sdk.Specification, error) {
+	return sdk.Specification{Name: "verif"}, nil
+}
+func (bindProc) Configure(context.Context, config.Config) error { return nil }
+func (bindProc) Open(context.Context) error                     { return nil }
+func (bindProc) Teardown(context.Context) error                 { return nil }
 
 var bindUniverse = []string{"https://api.example.com:443", "http://10.0.0.5:8080", "https://other.example.org:8443"}
 
